@@ -47,12 +47,12 @@ def mc_cfg(n, types, txs, interleave=False, selfloop_refused=True, noops=True, e
 
 
 def gen_cfg(n, types, txs, depth, canon, cover, noops=False, extra=False, maxset=2, initres=None,
-            emit_one_in=1):
+            emit_one_in=1, burst=0, shapes=("empty",), fullview=False):
     c = "SPECIFICATION GSpec\n" + consts(n, types, txs, False, True, noops, extra, maxset, initres)
-    c += "  Depth = %d\n  Canon = %s\n  Cover = %s\n  EmitOneIn = %d\nINVARIANTS Emit\n" % (
-        depth, str(canon).upper(), str(cover).upper(), emit_one_in)
+    c += "  Depth = %d\n  Canon = %s\n  Cover = %s\n  EmitOneIn = %d\n  Burst = %d\n  Shapes = %s\nINVARIANTS Emit\n" % (
+        depth, str(canon).upper(), str(cover).upper(), emit_one_in, burst, _set(shapes))
     if cover:
-        c += "VIEW GView\n"
+        c += "VIEW %s\n" % ("GViewFull" if fullview else "GView")
     return c + "CHECK_DEADLOCK FALSE\n"
 
 
@@ -205,8 +205,8 @@ def classify(hist, m, initres):
     res, edges = pre_view(hist, step, initres) if st else ([], [])
     state = "resources {%s}, edges {%s}" % (
         ", ".join(name(x) for x in res), ", ".join("%s-%s->%s" % (name(e[0]), e[1], name(e[2])) for e in edges))
-    text = "[%s ids] %s with %s: expected %s, real ontology gave %s %s" % (
-        m.get("conc"), where, state, m.get("exp"), m.get("act"), m.get("detail", ""))
+    text = "[%s ids, %s index wiring] %s with %s: expected %s, real ontology gave %s %s" % (
+        m.get("conc"), m.get("wiring") or "default", where, state, m.get("exp"), m.get("act"), m.get("detail", ""))
     verdict = True
     if kind == "error" or m.get("r") == "inconclusive":
         return "C16 harness-error", None, text
@@ -304,7 +304,7 @@ def judge(ctx, batch, bad, seen, drift, counts):
         one = ctx.path("one.ndjson")
         with open(one, "w") as f:
             f.write(json.dumps(hist) + "\n")
-        force = "%s=%s" % (m["conc"], ",".join(str(x) for x in m["inj"]))
+        force = "%s=%s@%s" % (m["conc"], ",".join(str(x) for x in m["inj"]), m.get("wiring") or "default")
         summ, bad2, _ = replay_file(ctx, one, batch.n, batch.initres, 1, "repro", force=force, workers=1)
         again = [classify(hist, b, batch.initres)[0] for b in bad2]
         if sig not in again:
@@ -314,7 +314,7 @@ def judge(ctx, batch, bad, seen, drift, counts):
             continue
         ctx.report(sig, text, {
             "history": hist, "n": batch.n, "initres": batch.initres, "conc": m["conc"], "inj": m["inj"],
-            "ids": m.get("ids"), "mismatch": m, "batch": batch.name,
+            "ids": m.get("ids"), "wiring": m.get("wiring") or "default", "mismatch": m, "batch": batch.name,
             "cmd": "python3 tools/verif.py replay C16 <this file>"})
 
 
@@ -367,12 +367,24 @@ def run(ctx):
     plans = []
     if not thorough:
         plans.append(dict(name="all-d3", n=3, types=["p"], txs=["t1"], depth=3, canon=True, cover=False, keep=4000, perms=2))
-        plans.append(dict(name="cover-n3-tx", n=3, types=["p"], txs=["t1"], depth=40, canon=True, cover=True, keep=7000, perms=2))
+        plans.append(dict(name="cover-n3-tx", n=3, types=["p"], txs=["t1"], depth=40, canon=True, cover=True, keep=6000, perms=2))
+        # several operations on overlapping edges inside one transaction, then commit/abort
+        plans.append(dict(name="txburst-n3", n=3, types=["p"], txs=["t1"], depth=10, canon=False, cover=False,
+                          noops=True, burst=2, shapes=("empty", "edge", "chain", "fan", "vee", "tri"), keep=3000, perms=2))
+        # every transition of the 2-resource graph with the write overlay kept apart
+        plans.append(dict(name="txcover-n2", n=2, types=["p"], txs=["t1"], depth=40, canon=True, cover=True,
+                          noops=True, fullview=True, keep=2500, perms=2))
         plans.append(dict(name="cover-n3-pq", n=3, types=["p", "q"], txs=[], depth=40, canon=True, cover=True, keep=3000, perms=2))
-        plans.append(dict(name="cover-n4", n=4, types=["p"], txs=[], depth=40, canon=True, cover=True, keep=5000, perms=2))
+        plans.append(dict(name="cover-n4", n=4, types=["p"], txs=[], depth=40, canon=True, cover=True, keep=4500, perms=2))
     else:
         plans.append(dict(name="all-d3", n=3, types=["p"], txs=["t1"], depth=3, canon=True, cover=False, keep=None, perms=4))
         plans.append(dict(name="cover-n3-tx", n=3, types=["p"], txs=["t1"], depth=40, canon=True, cover=True, keep=45000, perms=3))
+        plans.append(dict(name="txburst-n3", n=3, types=["p"], txs=["t1"], depth=10, canon=False, cover=False,
+                          noops=True, burst=2, shapes=("empty", "edge", "chain", "fan", "vee", "tri"), keep=None, perms=3))
+        plans.append(dict(name="txburst3-n3", n=3, types=["p"], txs=["t1"], depth=10, canon=False, cover=False,
+                          noops=True, burst=3, shapes=("chain", "fan", "tri"), emit_one_in=25, keep=25000, perms=2))
+        plans.append(dict(name="txcover-n2", n=2, types=["p"], txs=["t1"], depth=40, canon=True, cover=True,
+                          noops=True, fullview=True, keep=None, perms=2))
         plans.append(dict(name="cover-n3-pq", n=3, types=["p", "q"], txs=[], depth=40, canon=True, cover=True, keep=20000, perms=3))
         plans.append(dict(name="cover-n4", n=4, types=["p"], txs=[], depth=40, canon=True, cover=True, keep=40000, perms=3))
         plans.append(dict(name="sim-n5-p", n=5, types=["p"], txs=["t1"], depth=12, canon=False, cover=False,
@@ -391,7 +403,8 @@ def run(ctx):
         tag = "gen_" + pl["name"]
         cfg = gen_cfg(pl["n"], pl["types"], pl["txs"], pl["depth"], pl["canon"], pl["cover"],
                       noops=pl.get("noops", False), extra=pl.get("extra", False), maxset=pl.get("maxset", 2),
-                      initres=pl.get("initres"), emit_one_in=pl.get("emit_one_in", 1))
+                      initres=pl.get("initres"), emit_one_in=pl.get("emit_one_in", 1),
+                      burst=pl.get("burst", 0), shapes=pl.get("shapes", ("empty",)), fullview=pl.get("fullview", False))
         r = ctx.tlc(AREA, "OntologyGen", tag + ".cfg", files={tag + ".cfg": cfg}, tag=tag, workers=W,
                     timeout=2400, simulate=pl.get("simulate"),
                     depth=pl["depth"] + 1 if pl.get("simulate") else None)
@@ -399,7 +412,7 @@ def run(ctx):
         total, kept, smp = write_hists(ctx, r, hp, keep=pl["keep"], seed=ctx.seed)
         if kept == 0:
             raise vlib.Inconclusive("no histories generated for %s" % pl["name"])
-        if kept < total or pl.get("simulate"):
+        if kept < total or pl.get("simulate") or pl.get("emit_one_in", 1) > 1:
             exhaustive = False
         b = Batch(pl["name"], hp, pl["n"], pl.get("initres") or pl["n"], pl["perms"], total, kept)
         summ, bad, wall = replay_file(ctx, hp, b.n, b.initres, b.perms, "rp_" + pl["name"], workers=W)
@@ -416,7 +429,7 @@ def run(ctx):
 
     # ---- 3. vacuity: the replay must have exercised every mechanism the property names
     need = ["def_ok", "def_cyclic", "def_notfound", "del_cascade", "commits", "aborts", "tx_steps",
-            "traversals", "deep_levels", "missing_queries"]
+            "traversals", "deep_levels", "missing_queries", "prod_runs", "tx_rewrite_del"]
     lacking = [k for k in need if not stats.get(k)]
     acts = {}
     for a in ACTS:
@@ -468,7 +481,7 @@ def replay(ctx, path):
     hist = obj["history"]
     with open(one, "w") as f:
         f.write(json.dumps(hist) + "\n")
-    force = "%s=%s" % (obj["conc"], ",".join(str(x) for x in obj["inj"]))
+    force = "%s=%s@%s" % (obj["conc"], ",".join(str(x) for x in obj["inj"]), obj.get("wiring") or "default")
     summ, bad, _ = replay_file(ctx, one, obj["n"], obj["initres"], 1, "replay", force=force, workers=1)
     if bad:
         sig, verdict, text = classify(hist, bad[0], obj["initres"])
